@@ -98,7 +98,7 @@ module T = struct
   open StoreB
   open TBuffer
   let lens_str s =
-    let l = TieB.lensB s in
+    let l = Lens.lensB s in
     Printf.sprintf "%b,%b,%d" (SrcFragments.coq_Buffer_can_put l) (SrcFragments.coq_Buffer_can_get l)
       (int_of_z (SrcFragments.coq_Buffer_occupancy l))
   let state_str b =
@@ -289,7 +289,7 @@ module TF = struct
       if !dead then print_string "ILLEGAL\n" else
       let i n = int_of_string (L.nth w n) in
       if L.hd w = "PROBE" then begin
-        let l = TieB.lensB !b.fs in
+        let l = Lens.lensB !b.fs in
         Printf.printf "probe:%b,%b,%d||%s\n" (SrcFragments.coq_Fleet_can_put l) (SrcFragments.coq_Fleet_can_get l)
           (int_of_z (SrcFragments.coq_Fleet_occupancy l)) (state_str !b) end else
       let o = match L.hd w with
